@@ -70,3 +70,16 @@ Theorem C01_partial_exploration_terminates :
   forall it p, iter_ok it -> wf_path p -> finishes it (S (BASE ^ cap p)) p = true.
 Proof. exact explore_terminates. Qed.
 Print Assumptions C01_partial_exploration_terminates.
+
+Require Import LV.PathExhaust.
+
+(* partial, proved for every program: every registered alternative is explored *)
+Theorem C01_partial_dfs_exhaustive :
+  forall it n p, iter_ok it -> iter_ok2 it -> wf_path p -> wf2_path p -> fresh_path p ->
+    finishes it n p = true ->
+    forall k ek q c, nth_error (explore it n p) k = Some ek -> registered ek q c ->
+    exists j ej, nth_error (explore it n p) j = Some ej /\
+                 firstn q (choices ej) = firstn q (choices ek) /\
+                 nth_error (choices ej) q = Some c.
+Proof. exact dfs_exhaustive. Qed.
+Print Assumptions C01_partial_dfs_exhaustive.
